@@ -109,7 +109,8 @@ Theorem client_credentials_advertised_accepted : forall cfg statics st n now r c
   has_grant GClientCredentials (c_grants cl) = true ->
   validate_binding cfg cl (t_bind r) no_opts = None ->
   are_scopes_allowed (c_scopes cl) (cf_scopes cfg) (t_scope r) = true ->
-  validate_resources cfg (cf_resources cfg) (t_resources r) = true -> t_hg r = HgOk ->
+  validate_resources cfg (cf_resources cfg) (t_resources r) = true ->
+  validate_details_types cfg (t_auth_details r) = true -> t_hg r = HgOk ->
   exists t, snd (run_seq (cc_grant (mkWorld cfg statics) n now r) st) = OTokens t.
 Proof. exact cc_advertised_accepted. Qed.
 Print Assumptions client_credentials_advertised_accepted.
